@@ -23,6 +23,10 @@ def parse_priors(prior_string):
 
     function_name = actual_func.func.id
 
+    if actual_func.args:
+        raise MalformedPriorInput('Prior arguments must be given as '
+                                  'keywords, e.g. Uniform(bounds=(0, 1))')
+
     func_args = {kw.arg: ast.literal_eval(kw.value)
                  for kw in actual_func.keywords}
 
